@@ -942,7 +942,7 @@ fn c04_judge(c: &ServeCase, o: &ServeObs, sink: &mut Sink) -> (Verdict, Option<u
 }
 
 fn c04_etags() -> Vec<Option<Vec<u8>>> {
-    vec![None, Some(b"\"v1\"".to_vec()), Some(b"W/\"v1\"".to_vec()), Some(b"\"a, b\"".to_vec()), Some(b"\"x y\"".to_vec())]
+    vec![None, Some(b"\"v1\"".to_vec()), Some(b"W/\"v1\"".to_vec()), Some(b"\"a, b\"".to_vec()), Some(b"\"x y\"".to_vec()), Some(b"\"\xe9t\xe9\"".to_vec())]
 }
 
 fn c04_mtimes() -> Vec<Option<(u64, u32)>> {
@@ -983,12 +983,12 @@ impl Prop for C04 {
         "exploration"
     }
     fn rule(&self, ctx: &Ctx) -> String {
-        format!("full product: ETag {{absent, strong, weak, \"a, b\", \"x y\"}} x mtime {{absent, whole second, +1ms, +500ms, +999999999ns}} x If-Match x If-None-Match (each: absent, *, all single tags and {} pairs over {{same-strong, same-weak, other-strong, other-weak, tag containing ', '}}, sampled 3-4 element lists) x If-Modified-Since x If-Unmodified-Since {{absent, second-1, second, second+1}} x GET/HEAD{}. Non-trivial = distinct case with at least one conditional header whose status was compared with the RFC 7232 model",
+        format!("full product: ETag {{absent, strong, weak, \"a, b\", \"x y\", non-ASCII opaque}} x mtime {{absent, whole second, +1ms, +500ms, +999999999ns}} x If-Match x If-None-Match (each: absent, *, all single tags and {} pairs over {{same-strong, same-weak, other-strong, other-weak, tag containing ', '}}, sampled 3-4 element lists) x If-Modified-Since x If-Unmodified-Since {{absent, second-1, second, second+1}} x GET/HEAD{}. Non-trivial = distinct case with at least one conditional header whose status was compared with the RFC 7232 model",
             if thorough(ctx) { "all" } else { "a fifth of the" }, if thorough(ctx) { " x 3 date syntaxes x with/without Range" } else { "" })
     }
     fn n_blocks(&self, ctx: &Ctx) -> usize {
         let mut rng = Rng::new(0);
-        25 * tag_list_options(None, thorough(ctx) && !ctx.leg.slow(), &mut rng).len()
+        30 * tag_list_options(None, thorough(ctx) && !ctx.leg.slow(), &mut rng).len()
     }
     fn exhaustive(&self, _: &Ctx) -> bool {
         true
@@ -996,11 +996,11 @@ impl Prop for C04 {
     fn run_block(&self, b: usize, sink: &mut Sink) {
         let ctx = sink.ctx.clone();
         let big = thorough(&ctx) && !ctx.leg.slow();
-        let etag = c04_etags()[b % 5].clone();
-        let mtime = c04_mtimes()[(b / 5) % 5];
-        let mut rng = Rng::from_parts(ctx.seed, &[4, (b % 25) as u64]);
+        let etag = c04_etags()[b % 6].clone();
+        let mtime = c04_mtimes()[(b / 6) % 5];
+        let mut rng = Rng::from_parts(ctx.seed, &[4, (b % 30) as u64]);
         let ims = tag_list_options(etag.as_deref(), big, &mut rng);
-        let im = ims[b / 25].clone();
+        let im = ims[b / 30].clone();
         let inms = ims.clone();
         let sec = mtime.map(|m| m.0).unwrap_or(FIXED_SEC);
         let styles: &[DateStyle] = if big { &[DateStyle::Imf, DateStyle::Rfc850, DateStyle::Asctime] } else { &[DateStyle::Imf] };
@@ -1429,6 +1429,22 @@ pub fn c06_block(b: usize, sink: &mut Sink, judge: &ServeJudge) {
         starts.push(len - 1);
         starts.push(len - 2);
         starts.push(len / 2);
+        // one request with very many ranges (spills every small-vector optimisation)
+        if len >= 100_000 && !ctx.leg.slow() {
+            for n_many in [17usize, 64, 200] {
+                let step = (len / 2 / n_many as u64).min(400);
+                if step < 90 {
+                    continue;
+                }
+                let v: Vec<String> = (0..n_many as u64).map(|i| format!("{}-{}", i * step, i * step + (i % 5))).collect();
+                let ent = EntSpec { len, etag: Some(b"\"v1\"".to_vec()), mtime: None, hdrs: hdrs.clone(), plan: plans[n_many % plans.len()].clone(), fault: None };
+                let mut c = ServeCase::get(ent);
+                c.cap = 1 << 20;
+                c.hdrs.push(("range".into(), format!("bytes={}", v.join(", ")).into_bytes()));
+                exec(&c, sink, judge);
+                sink.max("max_parts", 0);
+            }
+        }
         for set_i in 0..n_sets {
             if sink.stopped() {
                 return;
@@ -2133,7 +2149,7 @@ fn c14_run(h: &History, sink: &mut Sink) -> (Verdict, Option<u64>, Value) {
 }
 
 fn c14_mtimes(now_sec: u64) -> Vec<Option<(u64, u32)>> {
-    vec![None, Some((0, 0)), Some((FIXED_SEC, 0)), Some((FIXED_SEC, 1_000_000)), Some((FIXED_SEC, 1)), Some((FIXED_SEC, 999_999_999)), Some((now_sec + 86_400, 250_000_000))]
+    vec![None, Some((0, 0)), Some((FIXED_SEC, 0)), Some((FIXED_SEC, 1_000_000)), Some((FIXED_SEC, 1)), Some((FIXED_SEC, 999_999_999)), Some((now_sec + 86_400, 250_000_000)), Some((now_sec + 3, 0)), Some((now_sec + 3600, 999_999_999))]
 }
 
 fn c14_firsts() -> Vec<Vec<(&'static str, &'static [u8])>> {
@@ -2157,10 +2173,10 @@ impl Prop for C14 {
         "exploration"
     }
     fn rule(&self, _: &Ctx) -> String {
-        "all two-request histories over: ETag {absent, strong, weak} x mtime {absent, epoch, whole second, +1ms, +1ns, +999999999ns, now+1day} x entity header sets {none, 1, 3, repeated name} x first request {plain, single range, multi range, unsatisfiable, failing If-Match, matching If-None-Match, multi/single range + If-Range} x all 32 subsets of echoed validators (If-None-Match, If-Modified-Since, If-Match, If-Unmodified-Since, If-Range+Range) x GET/HEAD. Non-trivial = distinct history whose first response headers were checked and (if anything was echoed) whose second status was compared with the round-trip rule".into()
+        "all two-request histories over: ETag {absent, strong, weak} x mtime {absent, epoch, whole second, +1ms, +1ns, +999999999ns, now+1day, now+3s, now+1h} x entity header sets {none, 1, 3, repeated name} x first request {plain, single range, multi range, unsatisfiable, failing If-Match, matching If-None-Match, multi/single range + If-Range} x all 32 subsets of echoed validators (If-None-Match, If-Modified-Since, If-Match, If-Unmodified-Since, If-Range+Range) x GET/HEAD. Non-trivial = distinct history whose first response headers were checked and (if anything was echoed) whose second status was compared with the round-trip rule".into()
     }
     fn n_blocks(&self, _: &Ctx) -> usize {
-        3 * 7 * 4
+        3 * 9 * 4
     }
     fn exhaustive(&self, _: &Ctx) -> bool {
         true
@@ -2169,9 +2185,9 @@ impl Prop for C14 {
         let now = std::time::SystemTime::now().duration_since(std::time::UNIX_EPOCH).unwrap().as_secs();
         let etags: [Option<&[u8]>; 3] = [None, Some(b"\"v1\""), Some(b"W/\"v1\"")];
         let etag = etags[b % 3];
-        let mtime = c14_mtimes(now)[(b / 3) % 7];
+        let mtime = c14_mtimes(now)[(b / 3) % 9];
         let hdr_sets = c06_hdr_sets();
-        let hdrs = hdr_sets[[0usize, 1, 2, 4][b / 21]].clone();
+        let hdrs = hdr_sets[[0usize, 1, 2, 4][b / 27]].clone();
         let slow = sink.ctx.leg.slow();
         for first in c14_firsts() {
             for echo in 0u8..32 {
